@@ -187,6 +187,26 @@ Definition bare_autolink (L : list srcline) (n : node) (s : bytes) : bool :=
   | _ => false
   end.
 
+(* A delimited span (emphasis, strong, strikethrough) is its opening delimiter, its content, and its closing
+   delimiter, with nothing else: the slice must be exactly  d ++ (the source from the start of the first
+   child to the end of the last child) ++ d.  This is what makes the start of the node the start of ITS OWN
+   delimiter: a position that also swallows delimiter characters left over in front of it (three asterisks
+   then a, closed by one asterisk: the emphasis is the last asterisk of the run, a, and the closer) still
+   starts and ends with an asterisk, but is not delimiter, content, delimiter. *)
+Definition children_span (ch : list node) : option sourcepos :=
+  match ch, rev ch with
+  | a :: _, z :: _ => Some (mkSp (sl (nsp a)) (sc (nsp a)) (el (nsp z)) (ec (nsp z)))
+  | _, _ => None
+  end.
+Definition wraps (L : list srcline) (s d : bytes) (ch : list node) : bool :=
+  match children_span ch with
+  | None => true
+  | Some csp => match slice L csp with
+                | Some inner => bytes_eqb s (d ++ inner ++ d)
+                | None => false
+                end
+  end.
+
 Definition slice_clause (L : list srcline) (smart : bool) (n : node) : bool :=
   let sp := nsp n in
   let covered :=
@@ -205,10 +225,11 @@ Definition slice_clause (L : list srcline) (smart : bool) (n : node) : bool :=
     | Text lit => if has_special s then true else bytes_eqb s lit
     | Code nb _ => starts_with s (rep nb x60) && ends_with s (rep nb x60) && (2 * nb <=? blen s)
     | Emph => (ob_is (first_b s) x2a && ob_is (last_b s) x2a || ob_is (first_b s) x5f && ob_is (last_b s) x5f)
-              && (2 <=? blen s)
+              && (2 <=? blen s) && (wraps L s [x2a] (nch n) || wraps L s [x5f] (nch n))
     | Strong => (starts_with s [x2a; x2a] && ends_with s [x2a; x2a] || starts_with s [x5f; x5f] && ends_with s [x5f; x5f])
-                && (4 <=? blen s)
+                && (4 <=? blen s) && (wraps L s [x2a; x2a] (nch n) || wraps L s [x5f; x5f] (nch n))
     | Strikethrough => ob_is (first_b s) x7e && ob_is (last_b s) x7e && (2 <=? blen s)
+                       && (wraps L s [x7e] (nch n) || wraps L s [x7e; x7e] (nch n))
     | Link _ _ =>
       if ob_is (first_b s) x5b then ob_is (last_b s) x29 || ob_is (last_b s) x5d
       else if ob_is (first_b s) x3c then ob_is (last_b s) x3e || bare_autolink L n s
